@@ -143,7 +143,17 @@ def drangeBT (c : Cal) (tbl : List Int) (x y : Int) (b : Int) : Res (List Int) :
 /-! The calendar's own operations use its own table `c.bdays` (built lazily, once, by `_populate`).  The `…T`
 forms exist so that the driver can compute the table once per calendar instead of once per request. -/
 
+/-- `Calendar.clock(date)` (_drange.py:615-618), read literally: `self.dt2int.get(date, self.dt2int[self.adjust(date)])`.
+Python evaluates the default argument FIRST (a `KeyError` when `adjust(date)` is not in the table, even if `date` is), then
+the `.get`: the position of `date` itself when it is a table key, otherwise the default. -/
+def clockT (c : Cal) (tbl : List Int) (t : Int) : Res Nat := do
+  let d ← clockOfT tbl (c.adjust c.adj t)
+  match idxIn t tbl with
+  | some i => pure i
+  | none => pure d
+
 def add (c : Cal) (a : Adj) (t n : Int) : Res Int := c.addT c.bdays a t n
+def clock (c : Cal) (t : Int) : Res Nat := c.clockT c.bdays t
 def bdaysBetween (c : Cal) (a : Adj) (x y : Int) : Res Int := c.bdaysBetweenT c.bdays a x y
 def drangeB (c : Cal) (x y : Int) (b : Int) : Res (List Int) := c.drangeBT c.bdays x y b
 
@@ -202,5 +212,101 @@ def Registry.calendar (month : Int → Int) (r : Registry) (k : String) (a : Cal
   match r.get? k, a.isDefault with
   | some c, true => (r, c)
   | _, _ => let c := mkCal month a; (r.set k c, c)
+
+/-! ### calendar OBJECTS: the lazily built table (round k3)
+
+A python `Calendar` is an object whose table (`dt2int` / `int2dt`) is built ONCE, by the first operation that calls `_populate()`
+(_drange.py:381-390), and kept; the registry `calendars` holds such objects.  `CalObj` is a configuration together with the table
+(`none` = not built yet); an operation returns the object afterwards and its answer.  Whether a table built for one registration
+can ever answer for another is a question about these objects (Props/C05 `registry_last_objects`). -/
+
+structure CalObj where
+  cal : Cal
+  tbl : Option (List Int)
+
+namespace CalObj
+
+/-- `Calendar(...)`: no table yet -/
+def fresh (c : Cal) : CalObj := ⟨c, none⟩
+
+/-- `_populate()`: builds the table unless the object has one -/
+def populate (o : CalObj) : CalObj :=
+  match o.tbl with
+  | some _ => o
+  | none => { o with tbl := some o.cal.bdays }
+
+/-- the table an operation reads after `_populate()` -/
+def table (o : CalObj) : List Int :=
+  match o.tbl with
+  | some t => t
+  | none => o.cal.bdays
+
+end CalObj
+
+/-- the operations on a calendar object that the registry histories of the harness use -/
+inductive Use where
+  | isb (t : Int)
+  | adjust (a : Adj) (t : Int)
+  | add (a : Adj) (t n : Int)
+  | bdays (a : Adj) (x y : Int)
+  | drange (x y b : Int)
+  | clock (t : Int)
+
+inductive Ans where
+  | bool (b : Bool)
+  | day (r : Res Int)
+  | days (r : Res (List Int))
+  | idx (r : Res Nat)
+
+/-- one operation on an object: the object afterwards (`add` with `|n| ≤ 1`, `is_bday`, `adjust` do not call `_populate()`) and the answer,
+read from the OBJECT's table -/
+def CalObj.use (o : CalObj) : Use → CalObj × Ans
+  | .isb t => (o, .bool (o.cal.isB t))
+  | .adjust a t => (o, .day (.ok (o.cal.adjust a t)))
+  | .add a t n =>
+      if n.natAbs > 1 then let o' := o.populate; (o', .day (o.cal.addT o'.table a t n))
+      else (o, .day (o.cal.addT [] a t n))
+  | .bdays a x y => let o' := o.populate; (o', .day (o.cal.bdaysBetweenT o'.table a x y))
+  | .drange x y b => let o' := o.populate; (o', .days (o.cal.drangeBT o'.table x y b))
+  | .clock t => let o' := o.populate; (o', .idx (o.cal.clockT o'.table t))
+
+/-- what the same operation answers on the calendar as a value (its own table `c.bdays`) -/
+def Cal.use (c : Cal) : Use → Ans
+  | .isb t => .bool (c.isB t)
+  | .adjust a t => .day (.ok (c.adjust a t))
+  | .add a t n => .day (c.add a t n)
+  | .bdays a x y => .day (c.bdaysBetween a x y)
+  | .drange x y b => .days (c.drangeB x y b)
+  | .clock t => .idx (c.clock t)
+
+abbrev ObjRegistry := List (String × CalObj)
+
+def ObjRegistry.get? (r : ObjRegistry) (k : String) : Option CalObj := (r.find? (·.1 == k)).map (·.2)
+
+def ObjRegistry.set (r : ObjRegistry) (k : String) (o : CalObj) : ObjRegistry :=
+  (k, o) :: r.filter (fun e => !(e.1 == k))
+
+/-- `calendar(key, ...)` on objects: a NEW object (no table) when the key is unknown or any argument is given -/
+def ObjRegistry.calendar (month : Int → Int) (r : ObjRegistry) (k : String) (a : CalArgs) : ObjRegistry × CalObj :=
+  match r.get? k, a.isDefault with
+  | some o, true => (r, o)
+  | _, _ => let o := CalObj.fresh (mkCal month a); (r.set k o, o)
+
+/-- `calendar(k).<op>(…)`: the object is fetched by key and operated on in place — the registry holds the object as the operation left it -/
+def ObjRegistry.useAt (month : Int → Int) (r : ObjRegistry) (k : String) (u : Use) : ObjRegistry × Ans :=
+  let p := r.calendar month k ⟨none, none, none, none⟩
+  let q := p.2.use u
+  (p.1.set k q.1, q.2)
+
+/-- a step of a registry history: a `calendar(k, args…)` call or an operation on the calendar fetched by key -/
+inductive RegOp where
+  | call (k : String) (a : CalArgs)
+  | use (k : String) (u : Use)
+
+def ObjRegistry.step (month : Int → Int) (r : ObjRegistry) : RegOp → ObjRegistry
+  | .call k a => (r.calendar month k a).1
+  | .use k u => (r.useAt month k u).1
+
+def runObj (month : Int → Int) (r : ObjRegistry) (ops : List RegOp) : ObjRegistry := ops.foldl (ObjRegistry.step month) r
 
 end Pyg.Calendar
